@@ -464,11 +464,9 @@ fn push_cases(
             let full_ext = format!("{}{}", stem_ext, ext);
             // location of the given path without any extension suffix
             let mut target = base.clone();
-            let mut above_root = false;
             for t in tail {
                 if *t == ".." {
-                    // `..` at the root: POSIX stays at the root, darklua's normalize pops it (F16)
-                    above_root |= target.is_empty();
+                    // `..` at the root stays at the root
                     target.pop();
                 } else {
                     target.push((*t).to_owned());
@@ -515,7 +513,7 @@ fn push_cases(
                         ext,
                         deco,
                         mask,
-                        region: if above_root { "F16" } else { u.region },
+                        region: u.region,
                     });
                 }
             }
@@ -1038,11 +1036,19 @@ fn real_bundle(case: &Case) -> String {
         let config = config.with_location(&case.proj);
         let out = "bundle-output/out.lua";
         let options = darklua_core::Options::new(&case.source).with_output(out).with_configuration(config);
-        let ok = match darklua_core::process(&resources, options) {
-            Ok(tree) => tree.result().is_ok(),
-            Err(_) => false,
+        let errors: Vec<String> = match darklua_core::process(&resources, options) {
+            Ok(tree) => tree.result().err().map(|es| es.iter().map(|e| e.to_string()).collect()).unwrap_or_default(),
+            Err(e) => vec![e.to_string()],
         };
-        if !ok {
+        if !errors.is_empty() {
+            // a resolved file the bundler cannot load because it has no extension: name it
+            for e in &errors {
+                if let Some(i) = e.find("without an extension at `") {
+                    let rest = &e[i + "without an extension at `".len()..];
+                    let end = rest.find('`').unwrap_or(rest.len());
+                    return format!("error no-extension {}", &rest[..end]);
+                }
+            }
             return "error".to_owned();
         }
         let code = match resources.get(out) {
@@ -1535,21 +1541,12 @@ A locator case is non-trivial when at least one candidate file exists (the loop 
         strings.push(p);
     }
     report.exhaustive.insert(format!("normalize: all strings of <= {} segments over 6 segment kinds, rooted or not", if thorough { 6 } else { 5 }), true);
-    let f16_known = known_entry(&known, "F16").is_some();
     for keep in [false, true] {
         let k = if keep { "1" } else { "0" };
-        let requests: Vec<String> = strings.iter().flat_map(|p| [format!("c15.norm {} {}", k, hx(p)), format!("c15.H {} {}", k, hx(p))]).collect();
+        let requests: Vec<String> = strings.iter().map(|p| format!("c15.norm {} {}", k, hx(p))).collect();
         let answers = model.ask_batch(&requests);
         for (i, p) in strings.iter().enumerate() {
-            let model_out = &answers[2 * i];
-            let in_h = match answers[2 * i + 1].as_str() {
-                "true" => true,
-                "false" => false,
-                other => {
-                    report.violation(Violation { kind: s("correspondence"), check: s("normalize-H"), what: format!("driver answered `{}`", other), input: json!({"op": "norm", "keep": keep, "path": p}), failing_input_found: false });
-                    continue;
-                }
-            };
+            let model_out = &answers[i];
             let real = std::panic::catch_unwind(|| real_norm(keep, p));
             let real_wire = match &real {
                 Ok(r) => wire(r),
@@ -1557,27 +1554,39 @@ A locator case is non-trivial when at least one candidate file exists (the loop 
             };
             let changed = real_wire != wire(Path::new(p));
             report.case(if changed { Some(("norm", keep, p.clone())) } else { None });
-            report.hist("normalize", if !in_h { "outside-H15 (pops root)" } else if changed { "changed" } else { "unchanged" });
+            let above_root = p.starts_with('/') && {
+                // `..` met while at the root (the region of the repaired F16), by the string walk
+                let mut depth = 0i32;
+                let mut hit = false;
+                for seg in p.split('/') {
+                    match seg {
+                        "" | "." => {}
+                        ".." => {
+                            if depth == 0 {
+                                hit = true;
+                            } else {
+                                depth -= 1;
+                            }
+                        }
+                        _ => depth += 1,
+                    }
+                }
+                hit
+            };
+            report.hist("normalize", if above_root { "`..` at the root" } else if changed { "changed" } else { "unchanged" });
             let oracle = if real.is_ok() { oracle_norm(keep, p) } else { Some(s("panic")) };
             if let Some(what) = &oracle {
-                if in_h || !f16_known {
-                    report.violation(Violation { kind: s("oracle"), check: s("normalize"), what: what.clone(), input: json!({"op": "norm", "keep": keep, "path": p}), failing_input_found: true });
-                } else {
-                    report.count("normalize_failures_in_F16_region", 1);
-                }
+                report.violation(Violation { kind: s("oracle"), check: s("normalize"), what: what.clone(), input: json!({"op": "norm", "keep": keep, "path": p}), failing_input_found: true });
             }
             if &real_wire != model_out {
                 // look for a property failure on this input or near it before blaming the model
-                let mut found = oracle.clone().filter(|_| in_h || !f16_known).map(|w| (p.clone(), w));
+                let mut found = oracle.clone().map(|w| (p.clone(), w));
                 let mut local = rng.fork();
                 for _ in 0..400 {
                     if found.is_some() {
                         break;
                     }
                     let q = mutate_path_string(p, &mut local);
-                    if model.ask(&format!("c15.H {} {}", k, hx(&q))) != "true" && f16_known {
-                        continue;
-                    }
                     if let Some(w) = oracle_norm(keep, &q) {
                         found = Some((q, w));
                     }
@@ -1752,31 +1761,41 @@ A locator case is non-trivial when at least one candidate file exists (the loop 
     pool.truncate(if thorough { 40_000 } else { 6_000 });
     let bundle_results = run_bundle_cases(&pool, threads);
     let f30_known = known_entry(&known, "F30").is_some();
-    let f31_known = known_entry(&known, "F31").is_some();
     for (case, got) in pool.iter().zip(bundle_results.iter()) {
         let want = match &case.expect {
             Some(Expect::File(loc)) => format!("marker {}", loc_string(loc)),
             _ => s("error"),
         };
         report.case(Some(hash_of(&("bundle", format!("{:?}", case.mode), &case.proj, &case.files, &case.source, &case.req))));
-        let no_extension = want.starts_with("marker") && !(want.ends_with(".lua") || want.ends_with(".luau"));
-        let region = if alias_then_parent(&case.req) {
-            "F30"
-        } else if no_extension {
-            "F31"
+        let lua_file = want.ends_with(".lua") || want.ends_with(".luau");
+        let no_extension = want.starts_with("marker") && Path::new(&want["marker ".len()..]).extension().is_none();
+        if want.starts_with("marker") && !lua_file && !no_extension {
+            // a data file (`data.json`): the leaf files of this generator hold Lua text, skip
+            report.hist("bundle", "skipped (documented file is a data file)");
+            continue;
+        }
+        let region = if alias_then_parent(&case.req) { "F30" } else { "" };
+        // the first existing candidate may be a file without an extension (`the given path`,
+        // `path/init`): resolution must still pick it, and the bundler - which loads resources by
+        // extension - must refuse exactly that file with its "without an extension" error
+        let matches = if no_extension && region.is_empty() {
+            match (got.strip_prefix("error no-extension "), &case.expect) {
+                (Some(p), Some(Expect::File(loc))) => &walk(&cwd(), p) == loc,
+                _ => false,
+            }
         } else {
-            ""
+            &want == got
         };
-        if &want == got {
-            report.hist("bundle", if want == "error" { "fails as documented (no candidate)" } else { "inlines the documented file" });
+        if matches {
+            report.hist("bundle", if no_extension { "refuses the documented extension-less file by name" } else if want == "error" { "fails as documented (no candidate)" } else { "inlines the documented file" });
             continue;
         }
         report.hist("bundle", if region.is_empty() { "differs" } else { region });
-        let excused = (region == "F30" && f30_known) || (region == "F31" && f31_known && (got == "panic" || got == "error"));
+        let excused = region == "F30" && f30_known;
         if !excused {
             let mut input = case.to_json();
             input["op"] = json!("bundle");
-            report.violation(Violation { kind: s("oracle"), check: format!("bundle-inlines-first-existing/{}", case.kind), what: format!("documented `{}`, bundled `{}`", want, got), input, failing_input_found: true });
+            report.violation(Violation { kind: s("oracle"), check: format!("bundle-inlines-first-existing/{}", case.kind), what: format!("documented `{}`{}, bundled `{}`", want, if no_extension { " (to be refused as a resource without an extension)" } else { "" }, got), input, failing_input_found: true });
         }
     }
     // ---- F. histories: one locator answers several calls (resolution must be a function of
@@ -1954,7 +1973,7 @@ fn replay_known(report: &mut Report, known: &[Value]) {
 fn check_corpus_entry(report: &mut Report, model: &mut Model, v: &Value, known: &[Value]) {
     let input = if v["input"].is_object() { &v["input"] } else { v };
     // witnesses of listed findings live in the corpus too; they are judged by `replay_known`
-    if known.iter().any(|e| &e["witness"] == input) {
+    if known.iter().any(|e| e["status"] == "known" && &e["witness"] == input) {
         return;
     }
     match input["op"].as_str() {
@@ -1964,9 +1983,8 @@ fn check_corpus_entry(report: &mut Report, model: &mut Model, v: &Value, known: 
             let k = if keep { "1" } else { "0" };
             let real = wire(&real_norm(keep, p));
             let m = model.ask(&format!("c15.norm {} {}", k, hx(p)));
-            let in_h = model.ask(&format!("c15.H {} {}", k, hx(p))) == "true";
             report.case(Some(("corpus-norm", keep, p.to_owned())));
-            if let Some(what) = oracle_norm(keep, p).filter(|_| in_h) {
+            if let Some(what) = oracle_norm(keep, p) {
                 report.violation(Violation { kind: s("oracle"), check: s("corpus/normalize"), what, input: input.clone(), failing_input_found: true });
             } else if real != m {
                 report.violation(Violation { kind: s("correspondence"), check: s("corpus/normalize"), what: format!("real `{}` model `{}`", real, m), input: input.clone(), failing_input_found: false });
@@ -1986,6 +2004,20 @@ fn check_corpus_entry(report: &mut Report, model: &mut Model, v: &Value, known: 
                     report.violation(Violation { kind: s("oracle"), check: s("corpus/convert"), what, input: input.clone(), failing_input_found: true });
                 } else if before.is_some() && arg.as_ref().ok() != model_arg.as_ref() {
                     report.violation(Violation { kind: s("correspondence"), check: s("corpus/convert"), what: format!("real `{:?}` model `{}`", arg, m), input: input.clone(), failing_input_found: false });
+                }
+            }
+        }
+        Some("bundle") => {
+            // a stored end-to-end expectation: `marker <file>` | `error` | `error no-extension <file>`
+            if let (Some(case), Some(expect)) = (Case::from_json(input), input["expect"].as_str()) {
+                let got = real_bundle(&case);
+                report.case(Some(("corpus-bundle", input.to_string())));
+                let same = match (got.strip_prefix("error no-extension "), expect.strip_prefix("error no-extension ")) {
+                    (Some(a), Some(b)) => walk(&cwd(), a) == walk(&cwd(), b),
+                    _ => got == expect,
+                };
+                if !same {
+                    report.violation(Violation { kind: s("oracle"), check: s("corpus/bundle"), what: format!("expected `{}`, bundled `{}`", expect, got), input: input.clone(), failing_input_found: true });
                 }
             }
         }
